@@ -268,3 +268,86 @@ theorem prepend_same_merged {f : Forest} {p : Nat} {vp : Value} {l' : List HTree
   simp [join, Keep.resident, hak, a']
 
 end XotModel
+
+namespace XotModel
+open HTree Spec
+
+/-- **prepend**: all geometries. -/
+theorem prepend_spec {f : Forest} {p c : Nat} (inv : f.Inv) (norm : f.Normal)
+    (hok : (f.prepend p c).2 = .ok) :
+    (f.prepend p c).1 = specMove (Keep.resident c) (.firstNormalChildOf p) c f := by
+  by_cases hfar : f.parent? c ≠ some p
+  · exact prepend_spec_far inv norm hfar hok
+  have hsamepar : f.parent? c = some p := Classical.not_not.1 hfar
+  have nd := inv.nodup
+  have hsc : f.structureCheck (some p) c = true := by
+    cases h : f.structureCheck (some p) c with
+    | true => rfl
+    | false => rw [prepend_unfold] at hok; simp [h] at hok
+  obtain ⟨vp, Lp, t, hgp, hgc, hpt, hnorm, hndoc, hvp⟩ := Forest.structureCheck_unpack nd hsc
+  have sp : SiteAt f p vp Lp := ⟨nd, hgp⟩
+  have htc : t.handle = c := (findList?_some f.roots t hgc).1
+  have hfirst : f.firstChild p = ((Lp.dropWhile abn).head?).map (·.handle) := Forest.firstChild_of_get hgp
+  have hoccEq := occupied_firstNormal (c := c) sp
+  by_cases hsame : ((Lp.dropWhile abn).head?).map (·.handle) = some c
+  · rw [prepend_unfold]
+    unfold specMove
+    simp [hsc, hfirst, hsame, hoccEq]
+  · have hocc : Dest.occupiedBy f c (.firstNormalChildOf p) = false := by
+      rw [hoccEq]; simpa using hsame
+    rw [prepend_unfold] at hok ⊢
+    simp only [hsc, hfirst, Bool.not_true, Bool.false_eq_true, if_false, beq_iff_eq, hsame] at hok ⊢
+    cases hctx : f.ctx? c with
+    | none => rw [Forest.parent?_of_no_ctx hctx] at hsamepar; cases hsamepar
+    | some cx =>
+      obtain ⟨e0, vo, so⟩ := SiteAt.of_ctx nd hctx
+      have hself : cx.self = t := by
+        have := Forest.get?_of_ctx nd hctx
+        rw [hgc] at this
+        exact (Option.some.inj this).symm
+      obtain ⟨po, l, k, r⟩ := cx
+      simp only at e0 so hself
+      subst hself
+      subst htc
+      have hpo : po = p := by
+        rw [Forest.parent?_of_ctx hctx] at hsamepar
+        exact Option.some.inj hsamepar
+      subst hpo
+      have hlists : vo = vp ∧ Lp = l ++ k :: r := by
+        have := so.kids
+        rw [hgp] at this
+        have := Option.some.inj this
+        injection this with _ e2 e3
+        exact ⟨e2.symm, e3⟩
+      obtain ⟨ev, eL⟩ := hlists
+      subst ev eL
+      rw [Forest.prevSibling_of_ctx hctx, Forest.nextSibling_of_ctx hctx] at hok ⊢
+      simp only at hok ⊢
+      have hold := old_stage inv norm so
+      generalize hres : f.removeConsolidate (prevOf l k) (nextOf r k) = res at hold hok
+      cases hold with
+      | same hseam =>
+        exact prepend_same_nomerge inv norm so hnorm hseam hsame hocc hok
+      | merged l' a b r' x y hc el er hx hy hp hn ht =>
+        subst el er
+        have so' : SiteAt f po vo ((l' ++ [a]) ++ k :: b :: r') := so
+        exact prepend_same_merged inv norm so' hc hx hy ht hnorm hocc hok
+
+theorem prepend_content {f : Forest} {p c : Nat} (inv : f.Inv) (norm : f.Normal)
+    (hok : (f.prepend p c).2 = .ok) :
+    (f.prepend p c).1.content = (specMove Keep.earlier (.firstNormalChildOf p) c f).content := by
+  rw [prepend_spec inv norm hok]
+  have nd := inv.nodup
+  have hsc : f.structureCheck (some p) c = true := by
+    cases h : f.structureCheck (some p) c with
+    | true => rfl
+    | false => rw [prepend_unfold] at hok; simp [h] at hok
+  obtain ⟨vp, Lp, t, hgp, hgc, hpt, hnorm, hndoc, hvp⟩ := Forest.structureCheck_unpack nd hsc
+  have sp : SiteAt f p vp Lp := ⟨nd, hgp⟩
+  have hvq : vp.isText = false := by
+    cases hvp with
+    | inl h => cases vp <;> simp_all [Value.isElement, Value.isText]
+    | inr h => cases vp <;> simp_all [Value.isDocument, Value.isText]
+  exact specMove_content_keep inv norm hgc sp hpt hvq _ (by simp [Dest.site, Forest.isLive_of_get hgp])
+
+end XotModel
